@@ -271,8 +271,9 @@ func (w *v1World) stress(r *ev.Run, cacheSize, goroutines, iters int) {
 				func() {
 					defer func() {
 						if v := recover(); v != nil {
-							r.Violation(fmt.Sprintf("v1 %s panicked under concurrent use: %s: cache=%s", g.Name, errClass(fmt.Sprint(v)), cc),
-								map[string]interface{}{"panic": fmt.Sprint(v), "stack": string(debug.Stack()), "client": string(id)})
+							st := string(debug.Stack())
+							r.Violation(fmt.Sprintf("v1 %s panicked under concurrent use: %s at %s: cache=%s", g.Name, errClass(fmt.Sprint(v)), panicSite(st), cc),
+								map[string]interface{}{"panic": fmt.Sprint(v), "stack": st, "client": string(id)})
 							err = fmt.Errorf("panic")
 						}
 					}()
@@ -300,6 +301,14 @@ func (w *v1World) stress(r *ev.Run, cacheSize, goroutines, iters int) {
 				}
 				r.Count("v1_getter_results_correct", 1)
 				r.Distinct("v1:" + g.Name + "/cache=" + cc)
+				if gi == 0 && it < 2 {
+					var ds []string
+					for _, b := range snap {
+						ds = append(ds, dg(b))
+					}
+					r.SampleN("v1-"+cc, 1, map[string]interface{}{"kind": "v1 getter result equal to the reference", "getter": g.Name, "client": string(id),
+						"cache": cc, "goroutines": goroutines, "key_digests": ds})
+				}
 				held = append(held, v1Held{key: key, vals: got, want: want, g: g.Name})
 				if len(held) > 6 {
 					recheck(held[0])
@@ -316,7 +325,7 @@ func (w *v1World) stress(r *ev.Run, cacheSize, goroutines, iters int) {
 	go func() { wg.Wait(); close(done) }()
 	select {
 	case <-done:
-	case <-time.After(5 * time.Minute):
+	case <-time.After(90 * time.Second):
 		r.Inconclusive("v1 reader stress did not finish (watchdog), cache=" + cc)
 	}
 }
